@@ -90,6 +90,33 @@ fn main() {
                 }
             }
         }
+        Some("deepsig") => {
+            // C12 / C13 / C16: a descriptor with n array dimensions (and one with n parameters) through mapper
+            // and cache, on a thread with the default 8 MiB main-thread stack; recursion per dimension would die
+            let n: usize = args[2].parse().expect("dimensions");
+            let h = std::thread::Builder::new()
+                .stack_size(8 << 20)
+                .spawn(move || {
+                    let mapping = "com.A -> a.b:\n    1:3:void run():10:12 -> m\n";
+                    let mapper = proguard::ProguardMapper::from(mapping);
+                    let mut buf = Vec::new();
+                    proguard::ProguardCache::write(&proguard::ProguardMapping::new(mapping.as_bytes()), &mut buf).expect("write");
+                    let cache = proguard::ProguardCache::parse(&buf).expect("parse");
+                    let deep = format!("({}La/b;)V", "[".repeat(n));
+                    let wide = format!("({})[I", "La/b;".repeat(n));
+                    for sig in [deep, wide] {
+                        let a = mapper.deobfuscate_signature(&sig).map(|s| s.format_signature());
+                        let b = cache.deobfuscate_signature(&sig).map(|s| s.format_signature());
+                        println!("len={} same={} some={}", a.as_ref().map_or(0, |s| s.len()), a == b, a.is_some());
+                    }
+                    println!("done");
+                })
+                .unwrap();
+            if h.join().is_err() {
+                println!("PANIC");
+                std::process::exit(3);
+            }
+        }
         Some("run-xver") => {
             let mut input = String::new();
             std::io::stdin().read_to_string(&mut input).unwrap();
